@@ -211,7 +211,7 @@ fn hostile(cfg: &str, r: &mut StdRng, tag: usize) -> (String, &'static str, usiz
         18 => ("bad_cost_aggregation".into(), "hostile", 1, with("cost_aggregation", [json!("max"), json!(7), json!(null)][r.gen_range(0..3)].clone())),
         19 => ("bad_vehicle_rates".into(), "hostile", 1, with("vehicle_rates", [json!("x"), json!({"time": {"type": "warp"}}), json!([1])][r.gen_range(0..3)].clone())),
         20 => ("weight_estimate_non_numeric".into(), "any", 1, with("query_weight_estimate", [json!("big"), json!(null), json!([1]), json!({"a": 2})][r.gen_range(0..4)].clone())),
-        21 if cfg.starts_with("ksp") => ("bad_k".into(), "any", 1, with("k", [json!(0), json!(-1), json!("x"), json!(1), json!(1000)][r.gen_range(0..5)].clone())),
+        21 if cfg.starts_with("ksp") => ("bad_k".into(), "any", 1, with("k", [json!(0), json!(-1), json!("x"), json!(1), json!(1000), json!(u64::MAX), json!(1u64 << 62), json!(4_294_967_296u64), json!(1.5)][r.gen_range(0..9)].clone())),
         _ => ("missing_both".into(), "hostile", 1, json!({"tag": tag})),
     }
 }
@@ -246,7 +246,7 @@ pub fn main(args: &[String]) -> i32 {
         let mut r = rng(12);
         let cfgs: Vec<&str> = arg_val(args, "--cfgs")
             .map(|s| s.split(',').map(|x| Box::leak(x.to_string().into_boxed_str()) as &str).collect())
-            .unwrap_or_else(|| vec!["plain", "dijkstra", "vrtree", "grid", "grid_vrtree", "lb", "lb_custom", "inject", "inject_grid", "ertree", "csvsink"]);
+            .unwrap_or_else(|| vec!["plain", "dijkstra", "vrtree", "grid", "grid_vrtree", "lb", "lb_custom", "inject", "inject_grid", "ertree", "csvsink", "ksp_svp"]);
         for i in 0..n {
             let cfg = cfgs[i % cfgs.len()];
             let mut batch = vec![];
